@@ -2,11 +2,11 @@ package shimagent
 
 //vsym:pkg github.com/theparanoids/ysshra/agent/shimagent
 //vsym:include shim/world.go
+//vsym:include shim/peek.go || shim/peek_bb.go
 //vsym:entry H10_addhardcert
 //vsym:entry H10_passthrough
 //vsym:entry H10_forward
 //vsym:entry H10_faults
-//vsym:model golang.org/x/crypto/ssh/agent.NewClient m10NewClient
 //vsym:replay same-harness
 //vsym:max-len 4
 //vsym:expect-cover C10.hw-accepted C10.hw-refused-no-key C10.hw-refused-not-cert C10.hw-sign-forwarded C10.hw-removed C10.listed-once C10.forward-ok C10.forward-too-large C10.forward-short C10.fault-surfaces
@@ -22,11 +22,6 @@ import (
 	"golang.org/x/crypto/ssh/agent"
 )
 
-var m10Up *mwUpstream
-
-func m10NewClient(rw interface{ Read([]byte) (int, error); Write([]byte) (int, error) }) agent.ExtendedAgent {
-	return m10Up
-}
 
 func h10Clock() {
 	mwClock = vNondetI64("now")
@@ -72,28 +67,42 @@ func H10_addhardcert() {
 		key = nil
 	}
 	var err error
+	var callerBlob []byte
+	if crt != nil && vChoose(2, "as-agent-key") == 1 {
+		// the way a served request arrives: format + blob in a buffer the caller owns
+		callerBlob = append([]byte(nil), mwCertMarshal(crt)...)
+		format := mwCertFormat
+		if vIsNative() {
+			format = crt.Type()
+		}
+		key = &agent.Key{Format: format, Blob: callerBlob}
+	}
 	crashed := vCatch(func() { err = s.AddHardCert(key, "hw") })
 	vAssert(!crashed, "C10.no-crash")
+	// the caller reuses its buffer once the call has returned
+	for i := range callerBlob {
+		callerBlob[i] = 0xAA
+	}
 	vAssert(mwInv(s), "C10.table-invariant-preserved")
 	if crt == nil {
 		vAssert(err != nil, "C10.only-certificates-are-accepted")
-		vAssert(len(s.certs) == 0, "C10.refused-candidate-not-stored")
+		vAssert(!mwPeek || mwMemLen(s) == 0, "C10.refused-candidate-not-stored")
 		vReach("C10.hw-refused-not-cert")
 		return
 	}
 	held := has[cand+1]
 	vAssert(vIff(err == nil, held), "C10.accepted-iff-its-key-is-currently-listed")
 	if !held {
-		vAssert(!mwMemHas(s, crt), "C10.refused-candidate-not-stored")
+		vAssert(!mwPeek || !mwMemHas(s, crt), "C10.refused-candidate-not-stored")
 		vReach("C10.hw-refused-no-key")
 		return
 	}
-	vAssert(mwMemHas(s, crt), "C10.accepted-certificate-stored")
+	vAssert(!mwPeek || mwMemHas(s, crt), "C10.accepted-certificate-stored")
 	vReach("C10.hw-accepted")
 	// adding it again is a no-op
-	n0, calls0 := len(s.certs), up.calls
+	n0, calls0 := mwMemLen(s), up.calls
 	err = s.AddHardCert(crt, "other")
-	vAssert(err == nil && len(s.certs) == n0 && up.calls == calls0, "C10.adding-again-is-a-no-op")
+	vAssert(err == nil && mwMemLen(s) == n0 && up.calls == calls0, "C10.adding-again-is-a-no-op")
 	// it is listed
 	l, lerr := s.List()
 	vAssert(lerr == nil, "C10.list-ok")
@@ -130,7 +139,7 @@ func H10_addhardcert() {
 	} else {
 		vAssert(s.Remove(crt) == nil, "C10.remove-hardware-certificate")
 	}
-	vAssert(!mwMemHas(s, crt), "C10.removed-certificate-disappears")
+	vAssert(!mwPeek || !mwMemHas(s, crt), "C10.removed-certificate-disappears")
 	vAssert(!up.has(mwCertMarshal(crt)), "C10.removed-certificate-disappears-upstream")
 	l, _ = s.List()
 	for _, k := range l {
@@ -214,14 +223,21 @@ func H10_forward() {
 	vAllocWatch()
 	vMaxLen(4)
 	up := &mwUpstream{failAt: -1}
-	s := mwNewServer(up, false)
 	req := vNondetBytes("req", vChoose(4, "req-len"))
 	conn := &m10Conn{failWrite: vChoose(3, "failing-write")}
 	hdr := vNondetBytes("reply-len", 4)
 	avail := vChoose(5, "reply-body")
 	body := vNondetBytes("reply", avail)
 	conn.in = append(append([]byte(nil), hdr...), body...)
-	s.conn = conn
+	// the server talks to the underlying agent through this connection: under
+	// vsym it is what connection.GetConn returns, natively it is put in place
+	if !vIsNative() {
+		mwNextConn = conn
+	}
+	s := mwNewServer(up, false)
+	if vIsNative() {
+		mwSetConn(s, conn)
+	}
 	var resp []byte
 	var err error
 	crashed := vCatch(func() { resp, err = s.Forward(req) })
@@ -249,6 +265,20 @@ func H10_forward() {
 		vAssert(err == nil && len(resp) == int(l), "C10.forward-returns-the-reply-body")
 		if err == nil && len(resp) == int(l) {
 			vAssert(vEqBytes(resp, body[:len(resp)]), "C10.forward-reply-byte-for-byte")
+			// the reply is the caller's: a later forwarded request (of this or
+			// another client) must not write into it
+			kept := append([]byte(nil), resp...)
+			vFreeze("C10.relayed-reply-not-overwritten-by-a-later-request", resp)
+			conn.in = append(conn.in[:0:0], 0, 0, 0, byte(len(resp)))
+			for i := 0; i < len(resp); i++ {
+				conn.in = append(conn.in, 0x5A)
+			}
+			conn.pos = 0
+			r2, err2 := s.Forward([]byte{200})
+			vCheckFrozen()
+			vThaw()
+			vAssert(err2 == nil && len(r2) == len(resp), "C10.second-forward-ok")
+			vAssert(vEqBytes(resp, kept), "C10.relayed-reply-not-overwritten-by-a-later-request")
 		}
 		vReach("C10.forward-ok")
 	} else {
@@ -316,7 +346,7 @@ func H10_faults() {
 	}
 	// a still-valid, non-orphan in-memory certificate is never discarded by a failure
 	if op != 5 && !lockedFirst {
-		vAssert(mwMemHas(s, mem), "C10.failure-never-discards-a-valid-in-memory-certificate")
+		vAssert(!mwPeek || mwMemHas(s, mem), "C10.failure-never-discards-a-valid-in-memory-certificate")
 	}
 }
 
